@@ -597,11 +597,29 @@ def executed_layout(ctx, quick):
     lays out a field, an array shape, an enum base or a union tag differently from the plan produces bytes that decode differently."""
     from vlib import rt, values
     from vlib.common import rng
-    items = [("samename", None), ("enumbase", None)] + [("ser", k) for k in corpus.ser_keys(3 if quick else 40, "p")]
+    items = [("samename", None), ("enumbase", None), ("unionpairs", "nullable-first"), ("unionpairs", "plain-first")] + [("ser", k) for k in corpus.ser_keys(3 if quick else 40, "p")]
+
+    def union_pairs(order):
+        """unions with the same non-null cases with and without null (one generated Python class serves both), in both visiting orders; the same cases in
+        another order; the same pair inside a generic record"""
+        i32, f32t, st = P("int32"), P("float32"), P("string")
+        plain = U(((None, i32), (None, f32t)))
+        nullable = U(((None, i32), (None, f32t)), True)
+        swapped = U(((None, f32t), (None, i32)))
+        three, three_n = U(((None, st), (None, i32), (None, N("UpRec")))), U(((None, st), (None, i32), (None, N("UpRec"))), True)
+        fields = [("n", nullable), ("p", plain), ("s", swapped), ("t3n", three_n), ("t3", three)]
+        steps = [("un", nullable), ("up", plain), ("sn", S(nullable)), ("sp", S(plain)), ("h", N("UpHolder")), ("t3", three), ("t3n", S(three_n)), ("g", N("UpGen", (i32,)))]
+        if order == "plain-first":
+            fields = [fields[1], fields[0], fields[2], fields[4], fields[3]]
+            steps = [steps[1], steps[0], steps[3], steps[2], steps[4], steps[6], steps[5], steps[7]]
+        gen = Rec("UpGen", [("a", U(((None, TP("T")), (None, st)), order != "plain-first")), ("b", U(((None, TP("T")), (None, st)), order == "plain-first"))], ("T",))
+        return Pkg("UnionPairs", [Rec("UpRec", [("x", i32)]), Rec("UpHolder", fields), gen, Proto("UpFlow", steps)])
 
     def build(kind, key):
         if kind == "samename":
             return None
+        if kind == "unionpairs":
+            return union_pairs(key)
         return corpus.enum_base_package() if kind == "enumbase" else corpus.ser_package(key, depth=3)
 
     def one(item):
@@ -615,7 +633,7 @@ def executed_layout(ctx, quick):
         c = m.codec
         eps = [rt.CppEndpoint(m, "plain"), rt.PyEndpoint(m), rt.PyEndpoint(m, mode="list"), rt.PyEndpoint(m, mode="fortran")]
         for proto in pkg.protocols():
-            for k in range(2 if quick else 4):
+            for k in range((2 if quick else 4) if kind != "unionpairs" else 6):
                 vals = values.ValueGen(c, rng("C14x", key or kind, proto.name, k), quiet_nan_only=True).steps(proto, stream_len=3)
                 data = c.encode_stream(proto, m.schema(proto.name), vals)
                 ctx.case(("executed", key or kind, proto.name, k))
